@@ -683,7 +683,7 @@ class C09(common.Prop):
             "(finite, 1e30, NaN, +inf, -inf, mixed, zero); oracle: visible results bit-identical over the fillings (NaN one word, -0.0 = +0.0); "
             "model: missing pattern / shapes / errors exact, values within rtol 2e-4 + atol 2e-4 (inner angle 5e-3, point-line 0.25: "
             "ill-conditioned near degenerate triangles; normalize_distribution: + 4e-7 (|mu| + 60) / std, the float32 cancellation of "
-            "x - mu divided by std; TensorFlow / Torch compute in float32, the model in binary64); non-trivial = at least one missing slot and the operation returns")
+            "x - mu divided by std; TensorFlow / Torch compute in float32, the model in binary64); non-trivial = at least one missing slot and the operation returns " "The NumPy body is built from a plain array, an unmasked masked array or a partially masked one, in C / Fortran / strided layout.")
     TRUSTED = ["Coq 8.16.1 kernel", "harness/translate_c09.py (fail-closed ast translator)",
                "extraction: ExtrOcamlBasic, ExtrOCamlFloats, ExtrOCamlInt63; runner/driver.ml",
                "harness/c09.py canonicalisers (NaN -> one word, -0.0 -> +0.0, errors -> one class, Torch/TF validity -> numpy mask polarity)"]
